@@ -114,11 +114,17 @@ type decoded struct {
 func decodeMsg(c *core.Ctx, enc string, in []byte, response bool, label string) (d decoded, err error, ok bool) {
 	var req kmip.RequestMessage
 	var resp kmip.ResponseMessage
+	// the decoder gets a buffer of its own, which is overwritten as soon as it has returned (the next message arrives
+	// in it): what was decoded - opaque payloads and attribute values included - must not depend on it any more
+	buf := append([]byte{}, in...)
 	if p, v, stk := core.Guard(func() {
 		if response {
-			err = Unmarshal(enc, in, &resp)
+			err = Unmarshal(enc, buf, &resp)
 		} else {
-			err = Unmarshal(enc, in, &req)
+			err = Unmarshal(enc, buf, &req)
+		}
+		for k := range buf {
+			buf[k] = 0xA5
 		}
 	}); p {
 		c.Violation(core.PanicSig(v, stk), fmt.Sprintf("decoder panicked (%s): %v", label, v), map[string]any{"encoding": enc, "input": show(enc, in), "stack": stk})
@@ -655,6 +661,13 @@ type vendorKey struct {
 	kmip.SymmetricKey
 }
 
+// ownSymKey is an application's own rendering of the Symmetric Key object (same wire layout).
+type ownSymKey struct {
+	KeyBlock kmip.KeyBlock
+}
+
+func (*ownSymKey) ObjectType() kmip.ObjectType { return kmip.ObjectTypeSymmetricKey }
+
 // lateObjects: object types registered at run time under vendor codes.
 func lateObjects(c *core.Ctx, g *gen.G) {
 	const vendorOpaque, vendorSym = kmip.ObjectType(0x80000001), kmip.ObjectType(0x80000002)
@@ -701,6 +714,27 @@ func lateObjects(c *core.Ctx, g *gen.G) {
 				continue
 			}
 			preserved(c, sig+":content", enc, in, d.msg, t, ot.Name)
+		}
+	}
+	// last (it changes what a standard code means from here on): an application replaces the structure registered
+	// for a BUILT-IN object type by its own; the code then names that structure
+	ttlv.RegisterTag("SymmetricKey", kmip.TagSymmetricKey, reflect.TypeFor[ownSymKey]()) // the structure travels under the standard element
+	kmip.RegisterObject(kmip.ObjectTypeSymmetricKey, &ownSymKey{})
+	for _, enc := range encs {
+		t := mk(kmip.ObjectTypeSymmetricKey, g.Object(kmip.ObjectTypeSymmetricKey))
+		in := Input(enc, t)
+		c.Count("late_registration_object_decodes", 1)
+		d, derr, ok := decodeMsg(c, enc, in, true, "Symmetric Key after the application registered its own structure for that object type")
+		if !ok {
+			continue
+		}
+		sig := "C06:late-registration:builtin-object-replaced:" + enc
+		if derr != nil {
+			c.Violation(sig+":decode-error", fmt.Sprintf("a Symmetric Key no longer decodes from %s after its object type was re-registered: %v", enc, derr), map[string]any{"input": show(enc, in)})
+			continue
+		}
+		if gp, isGet := d.payload.(*payloads.GetResponsePayload); !isGet || reflect.TypeOf(gp.Object) != reflect.TypeFor[*ownSymKey]() {
+			c.Violation(sig+":wrong-type", fmt.Sprintf("object type Symmetric Key, re-registered by the application for its own structure, decodes to %T", gp.Object), map[string]any{"input": show(enc, in)})
 		}
 	}
 }
